@@ -231,6 +231,14 @@ def loop_requests(ctx, quick, k):
         bs = b"".join(rng.choice(frag) for _ in range(rng.randrange(1, 14)))
         for fn in FN_LOOPS:
             req.append(f"{fn} {hexs(bs)}")
+    # GetKeyword with the header's delimiter set: keyword characters, `!` first and later, lower case, delimiters, NUL, `&`
+    ktoks = [b"A", b"Z9", b"_", b"-", b"!", b"a", b";", b"(", b" ", b"/", b"\\", b"\x00", b"&", b"\n", b"ENDSEC", b"#"]
+    for n in range(0, (3 if quick else 4) + 1):
+        for t in itertools.product(ktoks, repeat=n):
+            req.append(f"getkeyword {hexs(b''.join(t))}")
+    for n in (1, 63, 64, 65, 8191, 8192, 8193, 20000):
+        req.append(f"getkeyword {hexs(b'K' * n + b'(')}")
+        req.append(f"getkeyword {hexs(b'K' * n)}")
     # FindDataSection: DATA / prefixes of it, strings and comments that hide a `DATA;`, NUL
     dtoks = [b"D", b"A", b"T", b"DATA", b"DATA;", b";", b" ", b"'", b"'D;'", b"/*", b"*/", b"/", b"x", b"\x00", b"DA", b"\n"]
     for n in range(0, (3 if quick else 4) + 1):
